@@ -120,6 +120,7 @@ def run(ctx):
                             "the text is not replaced by the converter matching the effective style", ["%s:%d" % (ap.file, ap.line)])
     original_text_source(ctx, "R08-c")
     blank_line_clamp(ctx, "R08-d")
+    normalisation_table_searched_whole(ctx, "R08-e")
     # operand of the Auto detection at the only call site
     if f is not None:
         for c in f.calls():
@@ -293,3 +294,41 @@ def blank_line_clamp(ctx, rid):
                            "; ".join(la.show(x) for x in bad[1][-6:])),
                         ["%s:%d" % (f.file, f.line)])
     r.floor(rid, n_paths, 1, "returning paths of push_vertical_spaces")
+
+
+def normalisation_table_searched_whole(ctx, rid):
+    """R08-e: what the source map recorded about dropped bytes is looked up in the whole table"""
+    p, r = ctx.p, ctx.r
+    r.rule(rid, "`SourceFile::normalized_pos` records every place where rustc dropped bytes when loading the file — a byte order "
+                "mark as well as the `\\r` of each CRLF — in position order.  Every function that consults it (the CRLF detection "
+                "behind newline_style = Auto, the reconstruction of the original text) walks or searches the table; none reduces "
+                "it to one element (`first`, `last`, `get`, indexing): the entry of the first line ending is not the first entry "
+                "when the file starts with a BOM")
+    SINGLE = ("first", "last", "get", "index", "split_first", "split_last", "first_mut", "last_mut", "get_unchecked", "nth")
+    n = 0
+    units = {}
+    for f in p.by_crate["rustfmt_nightly"]:
+        units.setdefault(f.id.split("::{closure")[0], []).append(f)
+    for root, fs in sorted(units.items()):
+        for f in fs:
+            hits = []
+            for c in f.calls():
+                for a in c.args[:1]:
+                    if a[0] == "k":
+                        continue
+                    d = f.derived_from(a[1][0])
+                    direct = [e for e in a[1][1] if isinstance(e, list) and e[0] == "f"]
+                    if any(str(x[2]) == "normalized_pos" for x in d["fields"]) or any(str(e[4]) == "normalized_pos" for e in direct):
+                        hits.append(c)
+            if not hits:
+                continue
+            n += 1
+            bad = [c for c in hits if c.name.rsplit("::", 1)[-1] in SINGLE and ("slice" in c.name or "Vec" in c.name or "[T]" in c.name
+                                                                              or "Iterator" in c.name)]
+            r.instance(rid, "%s consults normalized_pos" % short(root), "violation" if bad else "ok", "%s:%d" % (f.file, f.line),
+                       ", ".join(sorted({short(c.name).rsplit("::", 1)[-1] for c in hits}))[:100])
+            for c in bad:
+                r.violation(rid, "%s looks at a single entry of normalized_pos" % short(root),
+                            "`%s` picks one element of the table; a byte order mark (or any earlier normalisation) shifts the entry "
+                            "that is meant: a BOM + CRLF file is taken for an LF file" % short(c.name).rsplit("::", 1)[-1], [c.loc()])
+    r.floor(rid, n, 2, "functions consulting SourceFile::normalized_pos")
